@@ -303,6 +303,7 @@ package meta
 //@ spec func alAllShape(re *syntax.Regexp, info *AnchoredLiteralInfo) bool = forall w :: 1 <= w && w < len(re.Sub) - 2 && isWild(re.Sub[w]) ==> alShape(re, w, info)
 //@ func DetectAnchoredLiteral
 //@   props C19 C01 C02
+//@   opt timeout_factor=3
 //@   requires re != nil
 //@   assume astOK(re)
 //@   ensures result != nil ==> fresh(result) && alInfoOK(result)
